@@ -143,6 +143,19 @@ def c15_3(R):
         R.ok("uniform-rescale", b.name, "cwnd, ssthresh, w_max, w_max_last *= old_mss / new_mss")
     else:
         R.fail([b.name, "rescale", "fields=%s same=%s old/new=%s" % (sorted(f.split(".")[1] for f in scaled), same, shape)], "set_mss no longer rescales all four window quantities by old_mss / new_mss", where=b.where(), instance="uniform-rescale")
+    # the rescale and the store must happen when the MSS actually changes: not under `self.mss == mss`
+    def is_mss_field(o):
+        return trace(b, o).last_field == "Cubic.mss"
+
+    def is_new_mss(o):
+        t_ = trace(b, o)
+        return t_.kind == "param" and t_.root[1] == 2 and not t_.fields
+    sites = [s for s in b.stmts() if (lambda fu: fu and ((fu.op == "*=" and fu.field.startswith("Cubic.")) or fu.field == "Cubic.mss"))(field_update(b, s))]
+    wrong = [s for s in sites if guarded(b, s.bb, "eq", is_mss_field, is_new_mss)]
+    if sites and not wrong:
+        R.ok("rescale-when-changed", b.name, "rescale and store are not confined to self.mss == mss")
+    else:
+        R.fail([b.name, "rescale-only-when(mss==new)"], "set_mss rescales / stores only when the MSS did NOT change: a real MSS change is ignored, cwnd keeps counting in the old unit", where=(wrong[0].where() if wrong else b.where()), instance="rescale-when-changed")
     wm = [s for s in b.stmts() if written_field(b, s) == "Cubic.mss"]
     # the factor must be computed from the OLD mss: no store of Cubic.mss may reach the read that feeds the numerator
     stale = False
